@@ -28,6 +28,11 @@ def is_generated(b):
 
 def classify(decl, res, selfty):
     name = res or decl
+    m = re.match(r'^<&(mut )?T as (bytes::Buf(Mut)?)>::(\w+)$', name)
+    if m:
+        # forwarding impl of bytes (`impl BufMut for &mut T`): classified as the trait method it forwards to
+        name = decl = '%s::%s' % (m.group(2), m.group(4))
+        res = ''
     if name in T.PARTIAL:
         return 'partial'
     if not res and decl in T.PARTIAL:
@@ -458,7 +463,8 @@ def sub_indirect_ack_count(site):
 
 
 ASSERT_SUBCHECKS = {
-    ('Foca::send_message', 'assert', 'Overflow(Add):num_items,1'): sub_send_message_num_items,
+    ('Foca::send_message', 'assert', 'Overflow(Add):acc:u16,1'): sub_send_message_num_items,
+    ('Foca::send_message', 'assert', 'Overflow(Add):counter:u16,1'): sub_send_message_num_items,
     ('member::Members::apply', 'assert', 'Overflow(Sub):len(self.inner),1'): sub_apply_len_minus_one,
     ('probe::Probe::receive_indirect_ack', 'assert', 'Overflow(Add):self.indirect_ack_count,1'): sub_indirect_ack_count,
 }
@@ -539,7 +545,7 @@ def p_remaining_tx_positive(site):
                 if 'rv' in s and s['rv']['k'] == 'aggregate' and strip_generics(s['rv']['name']) == 'broadcast::Entry':
                     if b.nname == '<broadcast::Entry as core::clone::Clone>::clone':
                         continue
-                    if b.nname != 'broadcast::Broadcasts::add_or_replace':
+                    if f.attributed(b) != ['broadcast::Broadcasts::add_or_replace']:
                         return False, 'Entry constructed in %s' % b.nname
                     n += 1
     if n != 1:
